@@ -9,6 +9,7 @@ import Pdpy11.Driver.Container
 import Pdpy11.Driver.Listing
 import Pdpy11.Driver.Parse
 import Pdpy11.Driver.Expr
+import Pdpy11.Driver.LineCol
 namespace Pdpy11.Driver
 
 def handle (line : String) : String :=
@@ -36,6 +37,7 @@ def handle (line : String) : String :=
     | "parse" => handleParse args
     | "expr" => handleExpr args
     | "tree" => handleTree args
+    | "linecol" => handleLineCol args
     | "ping" => "pong"
     | _ => "bad-op"
 
